@@ -86,10 +86,10 @@ def EXHAUSTIVE(tier):
 
 
 def plan(tier, seed, avoid):
-    n = 14 if tier == "quick" else 260
+    n = 14 if tier == "quick" else 800
     specs = [{"part": "objgen", "shard": i, "n": n} for i in range(20 if tier == "quick" else 32)]
     specs += [{"part": "compiled", "arch": a} for a in ARCHES]
-    specs += [{"part": "exec", "n": 24 if tier == "quick" else 300}]
+    specs += [{"part": "exec", "n": 24 if tier == "quick" else 600}]
     return specs
 
 
